@@ -125,7 +125,7 @@ theorem pres_incrTarget (g0 : G1) (s : Sess) : Pres g0 s (incrTarget s) :=
 theorem pres_of_ext_after {g0 : G1} {a b c : Sess} (h1 : Pres g0 a b) (h2 : Ext b c) : Pres g0 a c := h1.trans (h2.pres g0)
 
 theorem pres_prep (g0 : G1) (s : Sess) (m : OutMsg) : Pres g0 s (prep s m).2 := by
-  unfold prep
+  unfold prep prepCore
   simp only []
   split
   · split
@@ -150,7 +150,7 @@ theorem pres_queueForSend (g0 : G1) (s : Sess) (m : OutMsg) : Pres g0 s (queueFo
 theorem pres_sendInReplyTo (g0 : G1) (s : Sess) (m : OutMsg) : Pres g0 s (sendInReplyTo s m) := by
   unfold sendInReplyTo
   split
-  · exact pres_queueForSend g0 s m
+  · exact pres_queueForSend g0 s _
   · have hp := pres_prep g0 s m
     generalize prep s m = r at hp
     obtain ⟨o, s'⟩ := r
@@ -307,6 +307,8 @@ theorem peel_enqueueAndSend (m : OutMsg) (h : Pres g0 s x) : Pres g0 s (enqueueA
 theorem peel_sendQueued (h : Pres g0 s x) : Pres g0 s (sendQueued x) := h.trans ((ext_sendQueued x).pres g0)
 theorem peel_sendLogonInReplyTo (r : Bool) (h : Pres g0 s x) : Pres g0 s (sendLogonInReplyTo x r) := h.trans (pres_sendLogonInReplyTo g0 x r)
 theorem peel_sendResendRequest (b e : Int) (h : Pres g0 s x) : Pres g0 s (sendResendRequest x b e).1 := h.trans (pres_sendResendRequest g0 x b e)
+theorem peel_sendLogonRe (r : Bool) (m : InMsg) (h : Pres g0 s x) : Pres g0 s (sendLogonRe x r m) := h.trans (pres_dropAndSend g0 x _)
+theorem peel_setReplyLast (v : Option Int) (h : Pres g0 s x) : Pres g0 s (x.setReplyLast v) := h.trans ((Ext.of_eq (s := x) rfl rfl).pres g0)
 theorem peel_emit (o : Obs) (hn : neutral o = true) (h : Pres g0 s x) : Pres g0 s (x.emit o) := h.trans ((Ext.emit x o hn).pres g0)
 end peel
 
@@ -326,6 +328,8 @@ macro_rules | `(tactic| pres_step) => `(tactic| apply peel_enqueueAndSend)
 macro_rules | `(tactic| pres_step) => `(tactic| apply peel_sendQueued)
 macro_rules | `(tactic| pres_step) => `(tactic| apply peel_sendLogonInReplyTo)
 macro_rules | `(tactic| pres_step) => `(tactic| apply peel_sendResendRequest)
+macro_rules | `(tactic| pres_step) => `(tactic| apply peel_sendLogonRe)
+macro_rules | `(tactic| pres_step) => `(tactic| apply peel_setReplyLast)
 macro_rules | `(tactic| pres_step) => `(tactic| apply peel_emit _ (by simp [neutral]))
 
 /-- close `Pres g0 s (f₁ (f₂ … x))` goals by peeling model functions down to an assumption `Pres g0 s x` or to `s` itself -/
@@ -565,7 +569,7 @@ theorem J0_inSessionFixMsgIn (g0 : G1) (s : Sess) (m : InMsg) (h : J0 g0 s) : J0
     generalize handleLogon s m = r at hl
     obtain ⟨s', o⟩ := r
     cases o with
-    | some e => exact (hl.trans (pres_initiateLogout g0 s')).2 h
+    | some e => exact (hl.trans (pres_sendInReplyTo g0 s' ((mkOut "5" []).inReplyTo m))).2 h
     | none => exact hl.2 h
   · split
     · rename_i hk
@@ -651,9 +655,9 @@ theorem J0_resendFixMsgIn (g0 : G1) (s : Sess) (stash : List (Int × InMsg)) (cu
     | exact J0_sRR_eq (by assumption) h1
     | exact J0_drain_eq (by assumption) h1
 
-theorem J0_shutdownWithReason (g0 : G1) (s : Sess) (incr : Bool) (h : J0 g0 s) : J0 g0 (shutdownWithReason s incr).1 := by
+theorem J0_shutdownWithReason (g0 : G1) (s : Sess) (m : InMsg) (incr : Bool) (h : J0 g0 s) : J0 g0 (shutdownWithReason s m incr).1 := by
   unfold shutdownWithReason
-  have : Pres g0 s (if incr = true then incrTarget (dropAndSend s (mkOut "5" [])) else dropAndSend s (mkOut "5" [])) := by pres_peel
+  have : Pres g0 s (if incr = true then incrTarget (dropAndSend s ((mkOut "5" []).inReplyTo m)) else dropAndSend s ((mkOut "5" []).inReplyTo m)) := by pres_peel
   exact this.2 h
 
 theorem J0_handleLogon_eq {g0 : G1} {s : Sess} {m : InMsg} {r : Sess × Option LogonErr} (hk : (kindOf m != "A") = false)
@@ -675,7 +679,7 @@ theorem J0_logonFixMsgIn (g0 : G1) (s : Sess) (m : InMsg) (h : J0 g0 s) : J0 g0 
       have hh := J0_handleLogon_eq hk' (by assumption : handleLogon s m = _) h
       first
         | exact hh
-        | exact J0_shutdownWithReason g0 _ _ hh
+        | exact J0_shutdownWithReason g0 _ _ _ hh
         | exact J0_sRR_eq (by assumption) hh)
 
 theorem J0_fixMsgInCore (g0 : G1) (s : Sess) (m : InMsg) (h : J0 g0 s) : J0 g0 (fixMsgInCore s m).1 := by
@@ -794,6 +798,16 @@ theorem J0_stopNext (g0 : G1) (s : Sess) (h : J0 g0 s) : J0 g0 (stopNext s).1 :=
   all_goals (try dsimp only)
   all_goals first | exact h | exact J0_of_pres (by pres_peel) h
 
+theorem peel_setLastChecked {g0 : G1} {s x : Sess} (n : Int) (hp : Pres g0 s x) : Pres g0 s (x.setLastChecked n) :=
+  hp.trans ((Ext.of_eq (s := x) rfl rfl).pres g0)
+macro_rules | `(tactic| pres_step) => `(tactic| apply peel_setLastChecked)
+
+theorem pres_checkResetTime (g0 : G1) (s : Sess) (now : Int) : Pres g0 s (checkResetTime s now) := by
+  unfold checkResetTime
+  repeat' split
+  all_goals (try dsimp only)
+  all_goals pres_peel
+
 theorem J0_stepCore (g0 : G1) (s : Sess) (e : Ev) (h : J0 g0 s) : J0 g0 (stepCore s e).1 := by
   obtain ⟨hS, hD, hI, hC⟩ := J0_mutual g0 (fuelOf s)
   unfold stepCore
@@ -837,6 +851,7 @@ theorem J0_stepCore (g0 : G1) (s : Sess) (e : Ev) (h : J0 g0 s) : J0 g0 (stepCor
     have h1 := hC s true true h
     split <;> exact J0_of_pres (by pres_peel) h1
   | sessionTime r sm => exact hC s r sm h
+  | resetTime now => exact J0_of_pres (pres_checkResetTime g0 s now) h
 
 
 end Qfx.Sess
